@@ -9,7 +9,7 @@ EXTRA_COQ_FILES = ('GenFacts/SchemaOK.v',)
 RULE = ('seeded random programs in which add_* / assignment calls of every kind of rejection are injected (bad attribute value of '
         'every attribute class, value outside an enumeration, invalid reference, non-str name, bad origin reference type, duplicate '
         'dataset name, unsupported cast dtype, non-array data, bad frame channel lists) before and between valid calls of the same '
-        'name; compared with the history without the rejected calls. Distinct by (program index, number of rejected calls).')
+        'name; a rejected add_origin (with and without explicit reference) as the first origin call, objects around it, then the defining origin; compared with the history without the rejected calls. Distinct by (program index, number of rejected calls).')
 ASSUMPTIONS = ['the order of sets in the file is not compared: a rejected call may leave an empty set behind, which is never written '
                'but takes a position in the registry (DESIGN: C20)']
 PARTIAL = ('failed WRITES: the model shows which mutations a failed write leaves (derived attributes, merged data); the clause '
@@ -53,6 +53,10 @@ def run(ctx):
     for tkey in specgen.SET_KINDS:
         for inner in (apistream.reject_kinds(tkey) or [None])[: (2 if ctx.tier == 'quick' else 50)]:
             sweep.append(apistream.gen_sandwich(rng, tkey, inner)[0])
+    for explicit in (None, 40, 1):
+        for before in (True, False):
+            for second in (None, 7):
+                sweep.append(apistream.gen_origin_sandwich(rng, explicit, before, second))
     for k in range(n + len(sweep)):
         if k < len(sweep):
             prog, flavor = sweep[k], 'sandwich'
